@@ -148,6 +148,8 @@ func c06Run(c core.Case) *core.Result {
 		rec := gen.RandRec(rng, gen.RecOpts{NRefs: nref, SAMSafe: true, NoBigCig: rng.Intn(30) != 0, MaxSeq: 200}, i)
 		if rng.Intn(12) == 0 {
 			gen.PadTo(&rec, []int{4095, 4096, 4097}[rng.Intn(3)])
+		} else if rng.Intn(4) == 0 {
+			rec.Aux = nil // a line of exactly eleven fields (the generator always adds a provenance tag)
 		}
 		recs = append(recs, rec)
 		lr, err := toRecord(rec, h)
